@@ -243,7 +243,7 @@ func libWrite(x *Exec, n *ast.CallExpr, recv *Val, recvExpr ast.Expr, st *State,
 func libDecodeRune(x *Exec, n *ast.CallExpr, recv *Val, recvExpr ast.Expr, st *State, env *Env) Val {
 	s := x.eval(n.Args[0], st, env)
 	b := x.sliceRead(st, s, "0")
-	x.c.declare("rune.ofbyte", "(declare-fun rune.ofbyte ((_ BitVec 8)) Int)")
+	x.c.notes["range over a string yields one rune per byte (ASCII model: rune = byte value)"] = true
 	x.c.trusted["utf8.DecodeRune on a one-byte slice: the byte itself below 0x80, RuneError otherwise"] = true
 	return Val{Tuple: []Val{{T: app("rune.ofbyte", b.T), Ty: types.Typ[types.Rune]}, {T: "1", Ty: tInt}}}
 }
